@@ -71,7 +71,7 @@ def chain_case(runner, r, oc, reqs, pend, steps, kinds=("sm", "sm", "sm", "proto
                         dups = genlib.duplicate_tags("".join(lines))
                         reqs.append(dict(cmd="wf", lines=lines))
                         pend.append(("wf", dict(model=model, file=fn, dups=sorted(dups),
-                                                dups_known=model["kind"] == "uml" and findings.uml_dup_known_shape(dups)), None))
+                                                dups_known=model["kind"] == "uml" and findings.uml_dup_known_shape(dups, model)), None))
                 else:
                     oc.corr_failures.append(dict(what="could not capture the fresh code model", history=hist))
         oc.case(("chain", json.dumps(hist, sort_keys=True, default=str)), nontrivial=any(hist["edits"]))
